@@ -141,10 +141,11 @@ def fnv_stripe(key, nlocks=NLOCKS):
 # ----------------------------------------------------------------------------- parsing a phase
 
 class Op:
-    __slots__ = ("thread", "seq", "inv", "res", "sec", "ms", "args", "reply", "name")
+    __slots__ = ("thread", "seq", "inv", "res", "sec", "ms", "rsec", "rms", "args", "reply", "name")
 
-    def __init__(self, thread, seq, inv, res, sec, ms, args, reply):
+    def __init__(self, thread, seq, inv, res, sec, ms, rsec, rms, args, reply):
         self.thread, self.seq, self.inv, self.res, self.sec, self.ms = thread, seq, inv, res, sec, ms
+        self.rsec, self.rms = rsec, rms
         self.args, self.reply = args, reply
         self.name = args[0].decode("latin1").lower() if args else ""
 
@@ -163,8 +164,8 @@ def read_phase(d):
             continue
         left, reply = l.split(" | ", 1)
         f = left.split(" ")
-        ops.append(Op(int(f[1]), int(f[2]), int(f[3]), int(f[4]), int(f[5]), int(f[6]),
-                      [unhx(h) for h in f[7:]], reply.strip()))
+        ops.append(Op(int(f[1]), int(f[2]), int(f[3]), int(f[4]), int(f[5]), int(f[6]), int(f[7]), int(f[8]),
+                      [unhx(h) for h in f[9:]], reply.strip()))
     q = dict(status="?", panics=0, dump=[], dend=0, keys=None, exists={}, count=None, stripes={})
     for l in (d / "quiescent.txt").read_text().splitlines():
         f = l.split(" ")
@@ -244,7 +245,7 @@ def lin_lines(name, keys, ops, dump, atomic, pending_after=None, final=True):
             if o.inv > pending_after:
                 continue
             mode = "pending"
-        out.append("O %s %d %d %d %d %s | %s" % (o.ident(), o.inv, o.res, o.sec, o.ms, mode, obs))
+        out.append("O %s %d %d %d %d %d %d %s | %s" % (o.ident(), o.inv, o.res, o.sec, o.ms, o.rsec, o.rms, mode, obs))
         for st in stages:
             out.append("G " + " ".join(hx(a) for a in st))
     if final and pending_after is None:
